@@ -212,6 +212,9 @@ LONG_STRINGS = ["A" * 48, "B" * 50, "ab" * 30, "x" * 101]
 WORDING_STRINGS = ["to be", "to not be", "to have", "to match", "is", "has", "matches", "to be or not to be", "it has to be",
                    "to be equal to 1", "and to have", " to be", "to be ", "To Be", "not", "to"]
 KEYS = ["a", "b", "k", "foo", 'q"k', ""]
+# keys that contain the separators of the wordings they are written into (a key path is worded `"k1" -> "k2"`, a list `x, y`),
+# quotes, brackets, text that looks like a rendered key / a rendered two-level path
+SEP_KEYS = ["a, b", "a -> b", 'a", "b', 'a" -> "b', "a,b", ", ", " -> ", "[a]", '"a"', "a\\", "1", "a -> b, c"]
 # the other key types json.dumps accepts; "1"/"null"/"true" are what json.dumps turns 1/None/True into (distinct keys for Python)
 SCALAR_KEYS = [None, True, False, ["i", 0], ["i", 1], ["i", 2], ["i", -1], ["i", 10 ** 20], ["f", 3], ["f", -1], ["f", 2], ["f", 20]]
 MIXED_KEYS = KEYS + ["1", "null", "true"] + SCALAR_KEYS
@@ -220,8 +223,11 @@ MIXED_KEYS = KEYS + ["1", "null", "true"] + SCALAR_KEYS
 def gen_keys(rng, n):
     """n (or fewer) dict keys, pairwise distinct for Python (True == 1 == 1.0 is ONE key): 65 % str keys only, else keys of
     mixed types (str, None, bool, int, float)"""
-    if rng.random() < 0.65:
+    r = rng.random()
+    if r < 0.6:
         return rng.sample(KEYS, min(n, len(KEYS)))
+    if r < 0.65:
+        return rng.sample(SEP_KEYS + KEYS[:2], min(n, 4))
     out, seen = [], set()
     for k in rng.sample(MIXED_KEYS, min(n + 2, len(MIXED_KEYS))):
         pk = key_to_py(k)
@@ -363,6 +369,8 @@ OVERRIDES = ["to be one", "to have it", "to match the thing", "can do", "to exis
 
 def gen_keypath(rng):
     n = rng.choice([0, 1, 1, 1, 2, 2, 3]) if rng.random() < 0.3 else rng.choice([1, 1, 2])
+    if rng.random() < 0.15:
+        return [rng.choice(SEP_KEYS) if rng.random() < 0.6 else rng.choice(KEYS) for _ in range(n)]
     return [rng.choice(KEYS) if rng.random() < 0.7 else rng.choice([0, 1, -1, 2]) for _ in range(n)]
 
 
